@@ -717,8 +717,10 @@ def hErsReconcile (inp out : Json) : Except String Findings := do
   let o : ErsOutJ ← fromJson? out
   let st : ErsStore := { edss := [d], nodes := nodes, pods := pods, settings := settings,
                          daemonsets := dss.map (fun x => { name := x.name, ns := x.ns, selector := x.selector }) }
-  -- a fresh reconciler: empty back-off, every node released
-  let m := reconcileErs rs st (fun _ => true) aff now
+  -- nodes the reconciler's in-memory failed-pod back-off currently holds back (none for a fresh one)
+  let inBackoff : List String := (inp.getObjValAs? (List String) "inBackoff").toOption.getD []
+  let faulted : Bool := (inp.getObjValAs? Bool "faulted").toOption.getD false
+  let m := reconcileErs rs st (fun n => !inBackoff.contains n) aff now
   let fs : Findings := #[]
   let fs := spec fs "C16.reconcile-no-crash(ERS)" (o.kind != "panic")
   if o.kind == "panic" then return fs else
@@ -786,6 +788,27 @@ def hErsReconcile (inp out : Json) : Except String Findings := do
       | none => true)
   return fs
 
+/-! ### parallel helpers (C17) -/
+def hParallel (inp out : Json) : Except String Findings := do
+  let helper : String ← get inp "helper"
+  let pn : Bool ← get out "panic"
+  let injected : Int ← get out "injected"
+  let returned : Int ← get out "returned"
+  let cond : String ← get out "cleanupCond"
+  let agg : Bool ← get out "aggErr"
+  let fs : Findings := #[]
+  let fs := spec fs "C17.no-panic" (!pn)
+  -- the model's account (EdsProps/C17: fan-in completeness): errors returned = failures injected
+  let fs := if helper == "cleanupPods" then
+      let fs := spec fs "C17.errors-complete(cleanup aggregate)" (agg == decide (injected > 0))
+      spec fs "C17.cleanup-reflected" (injected == 0 || cond == "False")
+    else spec fs s!"C17.errors-complete({helper})" (returned == injected)
+  return fs
+
+def hConcurrent (_inp out : Json) : Except String Findings := do
+  let panics : Int ← get out "panics"
+  return spec #[] "C17.no-panic-under-concurrency" (panics == 0)
+
 def handlers : List (String × (Json → Json → Except String Findings)) := [
   ("limits", hLimits),
   ("max_creation", hMaxCreation),
@@ -803,7 +826,9 @@ def handlers : List (String × (Json → Json → Except String Findings)) := [
   ("select_nodes", hSelectNodes),
   ("cli", hCli),
   ("eds_reconcile", hEdsReconcile),
-  ("ers_reconcile", hErsReconcile)
+  ("ers_reconcile", hErsReconcile),
+  ("parallel", hParallel),
+  ("concurrent_reconcile", hConcurrent)
 ]
 
 def handleLine (line : String) : String :=
